@@ -78,5 +78,24 @@ CHECKS["C04"] = dict(
          "levels that share one prompt, told apart only by the cached level), default/configuration levels, start modes and 1-4 operations (acquire, command, configs, configs at a level, config, interactive, "
          "unknown target); the harness compares, per operation, the (mode, state, line) log of the device - commands, secrets in the password state, payload lines - the error class and the final mode.",
     note="Trusted: TLC, the device model (rejects and logs lines arriving in the wrong mode). Exact prompts except for leaf twins; the device changes mode only through the driver; secondary secret configured.")
+CHECKS["C09"] = dict(
+    category="model_checking", design_ref="DESIGN.md §5 C09, §11",
+    technique="TLA+/TLC: NcHello.tla holds the version decision table (checked against the property's wording as an invariant) and enumerates the whole scenario space; every scenario is "
+              "replayed on netconf.Driver.Open against a server model that decodes the client's stream strictly",
+    text="All 1296 combinations of advertised base versions x preferred version x hello layout (pretty, single line, with declaration) x namespace prefix x extra capabilities (incl. URNs that only contain "
+         "a base capability as a substring) x session-id (none, small, 2^32-1) x echoing transport are generated by TLC with the predicted outcome. The harness checks Open's error class, the transport "
+         "being closed on failure, SelectedVersion, ServerCapabilities(), SessionID(), the client's hello as received (exactly one, end-of-message framing, exactly base:<selected>), and that the first RPC "
+         "and its reply use the selected framing.",
+    note="Trusted: TLC, the server model. Exhaustive over the stated dimensions; 1 (quick) / 3 (thorough) read segmentations per scenario. One genuine defect repaired (prefixed session-id).")
+CHECKS["C08"] = dict(
+    category="model_checking", design_ref="DESIGN.md §5 C08, §11",
+    technique="TLA+/TLC: NcSession.tla (message-id counter, server reply policies now/late/never/write-error, echo, store keyed by id, fetch, expiry) checked for every policy vector and interleaving; "
+              "its terminal states are replayed as sessions on netconf.Driver for both framings with the server model implementing the policies",
+    text="NcSession.tla shows ids 101,102,..., OwnReply, NoLoss and termination for every vector of reply policies over 3 (quick) / 4 (thorough) requests, echoing or not, for every order of delivery, fetch and "
+         "expiry. Every terminal state is a scenario: the harness runs the calls (get, get-config, rpc, lock) against a server model that answers at once, holds the reply until the next request (delivered in "
+         "reads of its own, possibly together with the echo of that request), never answers, or lets the client's write of the trailing return fail after the request went out; it compares the message-id the "
+         "server decoded for each request with the reply each call returned (own id and request number), the error class of unanswered calls, and the id sequence.",
+    note="Trusted: TLC, the server model (strict decoder, read boundaries at server-message ends). Calls answered at once have a 4 s deadline so NoLoss is not a timing race; candidates are re-executed alone. "
+         "One genuine defect found and repaired (reply lost when a late reply shares a read with the echo of the next request).")
 PENDING_REASON = "check not built yet in this session (work in progress; see DESIGN.md §5 for the planned TLA+ specification and binding)"
 NOT_APPLICABLE = {}
